@@ -39,7 +39,13 @@ func VerifC13SyslogHandOff() {
 		close(done)
 	}()
 	w := verifrt.FifoOpenWriter(path)
-	w.Write("4242 Accepted password for alice from 10.0.0.1 port 2222 ssh2\n")
+	lines := []string{
+		"4242 Accepted password for alice from 10.0.0.1 port 2222 ssh2\n",
+		"4242 Accepted publickey for alice from 10.0.0.1 port 2222 ssh2: ED25519 SHA256:abcdef\n",
+		"4242 Accepted publickey for alice from 10.0.0.1 port 2222 ssh2: ED25519-CERT SHA256:abcdef ID alice@example (serial 7) CA ED25519 SHA256:ghijkl\n",
+		"4242 Accepted publickey for alice from 10.0.0.1 port 2222 ssh2: ED25519 SHA256:abcdef and stuff\n",
+	}
+	w.Write(lines[verifrt.Param("FORM", 0)])
 	verifrt.Quiesce()
 	verifrt.Reach("c13.syslog.blocked")
 	written := enc.n
